@@ -822,7 +822,7 @@ fn run_case(line: &str) -> String {
 
 impl Engine for CrashEngine {
     fn timeout_ms(&self) -> u64 {
-        25_000
+        120_000
     }
 
     fn exec(&mut self, line: &str) -> String {
